@@ -1,12 +1,12 @@
 package checks
 
 import (
-	"verif/gen/vp8l"
 	"bufio"
 	"bytes"
 	"encoding/binary"
 	"encoding/json"
 	"fmt"
+	"hash/crc32"
 	"image"
 	_ "image/png"
 	"io"
@@ -21,6 +21,7 @@ import (
 	"sync"
 	"sync/atomic"
 	"time"
+	"verif/gen/vp8l"
 
 	webp "github.com/deepteams/webp"
 	"github.com/deepteams/webp/animation"
@@ -404,13 +405,14 @@ func c05Handmade(r *rand.Rand, i int) ([]byte, string) {
 // ---------- child: run every entry point on every input of a batch ----------
 
 type c05Result struct {
-	I      int    `json:"i"`
-	Class  string `json:"class,omitempty"` // violation class ("" = fine)
-	Entry  string `json:"entry,omitempty"`
-	Detail string `json:"detail,omitempty"`
-	Alloc  uint64 `json:"alloc"`
-	Bound  uint64 `json:"bound"`
-	Accept int    `json:"accept"` // entry points that returned nil error
+	I       int    `json:"i"`
+	Class   string `json:"class,omitempty"` // violation class ("" = fine)
+	Entry   string `json:"entry,omitempty"`
+	Detail  string `json:"detail,omitempty"`
+	Alloc   uint64 `json:"alloc"`
+	Bound   uint64 `json:"bound"`
+	Accept  int    `json:"accept"` // entry points that returned nil error
+	Workers int    `json:"workers,omitempty"`
 }
 
 func wellFormed(m image.Image) string {
@@ -466,6 +468,13 @@ func c05RunOne(data []byte) (res c05Result) {
 		if res.Class == "" {
 			res.Class, res.Entry, res.Detail = class, entry, detail
 		}
+	}
+	// internal worker count as on hosts with other core counts (decided by the input bytes, so that an
+	// isolated re-run of one input sees the same count): 0 = whatever GOMAXPROCS gives the child
+	if k := []int{0, 16, 5, 37}[crc32.ChecksumIEEE(data)%4]; k > 0 {
+		webp.VerifSetWorkers(func(site string, n int) int { return k })
+		defer webp.VerifSetWorkers(nil)
+		res.Workers = k
 	}
 	runtime.ReadMemStats(&ms0)
 
@@ -699,7 +708,7 @@ func runC05(c *ev.Ctx) {
 	r := rng(c, 0)
 	stills := stillCorpus(r, c.N(60, 300), 48)
 	anims := animCorpus(r, c.N(24, 120), 32)
-	seeds := append(append([]namedFile{}, stills...), anims...)
+	seeds := append(append(append([]namedFile{}, stills...), anims...), aspectCorpus(r)...)
 	var raw [][]byte
 	for _, s := range seeds {
 		raw = append(raw, s.Data)
